@@ -17,18 +17,19 @@ import (
 )
 
 type Options struct {
-	Workers   int
-	SolverBin string
-	TimeoutMs int
-	MaxSteps  int64
-	MaxDepth  int
-	MaxPaths  int64
-	ValueCap  int
-	Seed      int64
-	Samples   int    // number of paths kept (model + trace) for native validation
-	Property  string // property charged with uncaught panics
-	Deadline  time.Time
-	Progress  func(string)
+	Workers     int
+	SolverBin   string
+	TimeoutMs   int
+	MaxSteps    int64
+	MaxDepth    int
+	MaxPaths    int64
+	ValueCap    int
+	Seed        int64
+	Samples     int    // number of paths kept (model + trace) for native validation
+	DiffQueries int    // number of assertion queries kept for the second-solver diff
+	Property    string // property charged with uncaught panics
+	Deadline    time.Time
+	Progress    func(string)
 }
 
 type Result struct {
@@ -49,6 +50,7 @@ type Result struct {
 	Poisoned     []string
 	Intercepted  map[string]int64
 	MaxEvents    int
+	Diffs        []DiffQuery
 }
 
 type sampleEntry struct {
@@ -224,6 +226,7 @@ func (ex *explorer) worker(w int) {
 	mkSym := func() *symCtx {
 		s := newSymCtx(opts.SolverBin, opts.TimeoutMs, int(atomic.AddInt32(&epochCounter, 1)))
 		s.valueCap = opts.ValueCap
+		s.diffSeed, s.diffWant = opts.Seed, opts.DiffQueries
 		return s
 	}
 	sym := mkSym()
@@ -254,6 +257,7 @@ func (ex *explorer) worker(w int) {
 			r.CoverReach[k] += v
 		}
 		r.Violations = append(r.Violations, nviol...)
+		r.Diffs = append(r.Diffs, sym.diffs...)
 		for _, s := range samples {
 			r.Samples = append(r.Samples, s.s)
 		}
@@ -326,6 +330,7 @@ func (ex *explorer) worker(w int) {
 			ns.Paths, ns.Aborted, ns.Decisions = sym.Paths, sym.Aborted, sym.Decisions
 			ns.slv.Queries, ns.slv.Time = sym.slv.Queries, sym.slv.Time
 			ns.tt = sym.tt
+			ns.diffs = sym.diffs
 			sym = ns
 			in.sym = sym
 			continue
